@@ -56,4 +56,91 @@ def cases(draw, tier="quick"):
     return c
 
 
-PARTS = [Part("episodes", strategy=lambda tier: cases(tier), run=run, quick=2500, thorough=150000)]
+# ---------------------------------------------------------------------------------------- tabular rewards
+import math
+
+import numpy as np
+
+from vlib import xylab
+
+
+@st.composite
+def xy_cases(draw, tier="quick"):
+    """TradingEnvXY always rewards with LogReturn(scale = mean std of the log returns of Y up to transformer_end,
+    clip = reward_clipping, risk_aversion): near fully invested accounts so that the clip is active on large moves."""
+    c = draw(xylab.cases(tier))
+    c["fold2"] = None
+    c["reward_clipping"] = draw(st.sampled_from([2.0, 2.0, 0.5, 1.0, 3.0]))
+    c["risk_aversion"] = draw(st.sampled_from([0.0, 0.0, 0.1, 0.5]))
+    sign = draw(st.sampled_from([1.0, 1.0, -1.0]))
+    c["xy_weight"] = sign * draw(st.sampled_from([1.0, 0.9, 0.5]))
+    return c
+
+
+def run_xy(case):
+    res = Result()
+    env = xylab.build_env(case)
+    tables = xylab.tables_from_case(case)
+    clipv, ra = case["reward_clipping"], case["risk_aversion"]
+    # reference scale from the INPUT prices (statement/docstring: rewards are the log-ratio scaled and clipped)
+    te = env.broker if False else None
+    Y = tables["Y"]
+    te_day = xylab.day(case, case["transformer_end"]) if case.get("transformer_end") is not None else env.Y.index[-1]
+    hist = Y.loc[:te_day]
+    stds = []
+    for col in hist.columns:
+        v = np.log(hist[col].values.astype(float))
+        d = np.diff(v)                       # NaN prices give NaN differences, which a standard deviation skips
+        d = d[~np.isnan(d)]
+        if len(d) >= 2:
+            stds.append(float(np.std(d, ddof=1)))
+        else:
+            stds.append(float("nan"))
+    scale = float(np.mean(stds)) if stds and not any(math.isnan(x) for x in stds) else float("nan")
+    if not (scale > 0) or math.isnan(scale):
+        res.excluded = "reward-scale-undefined"
+        return res
+    env.reset(case["fold"] if case["folds"] is not None else "training-set")
+    nassets = len(env.action_space.contracts)
+    clipped = 0
+    steps = 0
+    w = max(case["max_short"], min(case["max_long"], case["xy_weight"])) / max(1, nassets)
+    done = False
+    while not done and steps < 200:
+        action = np.array([w if not np.isnan(env.exchange[c].bid_price) else 0.0 for c in env.action_space.contracts])
+        obs, reward, done, info = env.step(action)
+        steps += 1
+        if not info:
+            res.excluded = "ended-by-insolvency"
+            break
+        pre = float(info["_rebalancing"].context_pre.nlv) if info.get("_rebalancing") is not None else None
+        tr = env.broker.track_record
+        pre = float(tr[-1].context_pre.nlv)
+        now = float(env.broker.net_liquidation_value(raise_if_broke=False))
+        if now <= 0:
+            break
+        raw = math.log(now / pre) / scale
+        want = max(-clipv, min(clipv, raw))
+        if abs(raw) > clipv:
+            clipped += 1
+        if want < 0:
+            want *= (1 + ra)
+        if not abs(float(reward) - want) <= 1e-9 * max(1.0, abs(want)) + 1e-9 / scale * 1e-3:
+            res.fail("step %d at %s: reward %r, clip(log(%r/%r)/%r, +-%r) with risk aversion %r gives %r" % (
+                steps, env.now(), reward, now, pre, scale, clipv, ra, want))
+            break
+    res.nontrivial = clipped > 0 and steps >= 3
+    res.tag("reward_clipping=%g" % clipv, "risk_aversion=%g" % ra)
+    if clipped:
+        res.tag("clip-active")
+    return res
+
+
+PARTS = [
+    Part("episodes", strategy=lambda tier: cases(tier), run=run, quick=2500, thorough=150000),
+    Part("xy-rewards", strategy=lambda tier: xy_cases(tier), run=run_xy, quick=400, thorough=12000),
+]
+RULE = RULE + (" xy-rewards: generated TradingEnvXY configurations (xylab) with reward_clipping in {0.5,1,2,3} and risk_aversion in {0,0.1,0.5}, "
+               "near fully invested; every step's reward must equal clip(log(NLV now / recorded pre-trade NLV) / scale, +-reward_clipping) "
+               "(x (1+risk_aversion) when negative) with scale recomputed from the input prices up to transformer_end; non-trivial = the clip "
+               "is active on at least one step.")
